@@ -385,7 +385,7 @@ Definition iterate (env : layer -> memdb) (fuel : nat) (it : iter) : list kv * b
 Definition state_size (s : state) : nat := (length (st_cache s) + length (st_overlay s) + length (st_store s))%nat.
 (** Fuel that always suffices for one call on a CacheDB / OverlayDB iterator of state [s]
     (proved in Proofs/KV.v). *)
-Definition enough_fuel (s : state) : nat := (2 * state_size s + 8)%nat.
+Definition enough_fuel (s : state) : nat := (2 * state_size s + 10)%nat.
 
 Definition strip_keys (l : list kv) : list kv := map (fun e => (tl (fst e), snd e)) l.
 
@@ -475,3 +475,77 @@ Fixpoint sortedb (l : list kv) : bool :=
 Definition keys_nonempty (l : list kv) : bool := forallb (fun e => negb (is_empty (fst e))) l.
 Definition wf_state (s : state) : bool :=
   sortedb (st_cache s) && sortedb (st_overlay s) && sortedb (st_store s).
+
+(** * Histories: the implementation model against a single ordered map *)
+
+Inductive hop :=
+| HPut (k v : bytes)        (* CacheDB.Put *)
+| HDel (k : bytes)          (* CacheDB.Delete *)
+| HGet (k : bytes)          (* CacheDB.Get *)
+| HIter (p : bytes)         (* CacheDB.NewIterator(p); First; Next ... until false *)
+| HCommit                   (* CacheDB.Commit *)
+| HReset                    (* CacheDB.Reset *)
+| HOvGet (k : bytes)        (* OverlayDB.Get *)
+| HOvIter (p : bytes)       (* OverlayDB.NewIterator(p); First; Next ... *)
+| HOvCommit.                (* OverlayDB.CommitTo + BatchCommit *)
+
+Inductive obs := ObsVal (v : bytes) | ObsList (l : list kv) (complete : bool).
+
+Definition impl_step (pfx : N) (s : state) (o : hop) : state * list obs :=
+  match o with
+  | HPut k v => (cache_put pfx k v s, [])
+  | HDel k => (cache_delete pfx k s, [])
+  | HGet k => (s, [ObsVal (cache_get pfx s k)])
+  | HIter p => let '(l, ok) := cache_iterate pfx s p in (s, [ObsList l ok])
+  | HCommit => (cache_commit s, [])
+  | HReset => (cache_reset s, [])
+  | HOvGet k => (s, [ObsVal (overlay_get s k)])
+  | HOvIter p => let '(l, ok) := overlay_iterate s p in (s, [ObsList l ok])
+  | HOvCommit => (overlay_commit s, [])
+  end.
+
+Fixpoint impl_run (pfx : N) (s : state) (ops : list hop) : state * list obs :=
+  match ops with
+  | [] => (s, [])
+  | o :: r => let '(s1, o1) := impl_step pfx s o in
+              let '(s2, o2) := impl_run pfx s1 r in (s2, o1 ++ o2)
+  end.
+
+(** The specification: three plain ordered maps (sorted lists without tombstones): what is
+    persisted, what the block sees, what the transaction sees. *)
+Record spec := mkSpec { sp_store : list kv; sp_block : list kv; sp_cur : list kv }.
+
+Definition spec_step (pfx : N) (sp : spec) (o : hop) : spec * list obs :=
+  match o with
+  | HPut k v => (mkSpec (sp_store sp) (sp_block sp) (spec_put (pkey pfx k) v (sp_cur sp)), [])
+  | HDel k => (mkSpec (sp_store sp) (sp_block sp) (kv_remove (pkey pfx k) (sp_cur sp)), [])
+  | HGet k => (sp, [ObsVal (kv_lookup (pkey pfx k) (sp_cur sp))])
+  | HIter p => (sp, [ObsList (strip_keys (with_prefix (pkey pfx p) (sp_cur sp))) true])
+  | HCommit => (mkSpec (sp_store sp) (sp_cur sp) (sp_cur sp), [])
+  | HReset => (mkSpec (sp_store sp) (sp_block sp) (sp_block sp), [])
+  | HOvGet k => (sp, [ObsVal (kv_lookup k (sp_block sp))])
+  | HOvIter p => (sp, [ObsList (with_prefix p (sp_block sp)) true])
+  | HOvCommit => (mkSpec (sp_block sp) (sp_block sp) (sp_cur sp), [])
+  end.
+
+Fixpoint spec_run (pfx : N) (sp : spec) (ops : list hop) : spec * list obs :=
+  match ops with
+  | [] => (sp, [])
+  | o :: r => let '(s1, o1) := spec_step pfx sp o in
+              let '(s2, o2) := spec_run pfx s1 r in (s2, o1 ++ o2)
+  end.
+
+Definition abs_spec (s : state) : spec := mkSpec (live (st_store s)) (abs_block s) (abs s).
+
+(** keys written through the API are byte strings *)
+Definition hop_ok (pfx : N) (o : hop) : bool :=
+  match o with
+  | HPut k _ | HDel k => byte_ok pfx && wf_bytes k
+  | _ => true
+  end.
+
+Definition key_ok (k : bytes) : bool := wf_bytes k && negb (is_empty k).
+Definition keys_okb (l : list kv) : bool := forallb (fun e => key_ok (fst e)) l.
+(** a well-formed stack: sorted layers whose keys are non-empty byte strings *)
+Definition good_state (s : state) : bool :=
+  wf_state s && keys_okb (st_cache s) && keys_okb (st_overlay s) && keys_okb (st_store s).
